@@ -474,6 +474,12 @@ example : let s := events Cfg.good Sess.init [.peerHold, .send [1], .send [2]]
     ((sessLTS Cfg.good).run (envStep s .writeFail)
       [.sendStep, .sendStep, .sendStep, .sendStep, .sendStep, .recvStep, .recvStep]).map (fun t => decide (ended t)) = some true := by decide
 
+/-- a backlog: three items sent and flushed, then eight queued behind a stalled peer, a local Close, and the peer
+    reads again: every byte arrives, in order, before the connection closes -/
+example : let backlog := (List.range 8).map (fun i => Env.send [i + 10])
+    let s := events Cfg.good Sess.init ([.send [1], .send [2], .send [3], .peerHold] ++ backlog ++ [.close, .peerDrain])
+    ended s ∧ s.faulted = false ∧ s.delivered = [1, 2, 3] ++ (List.range 8).map (· + 10) := by decide
+
 /-- a partial write followed by a write error / timeout: the peer has a proper prefix of the item, the session is over,
     nothing else of the queue is ever written (no retry, no duplicate) -/
 example : let s := events Cfg.good Sess.init [.send [9], .writeFailAfter 2, .send [1, 2, 3, 4], .send [5]]
